@@ -240,6 +240,32 @@ class Interp:
         for p, d in zip(params[len(params) - len(defaults):], defaults):
             if p not in env:
                 env[p] = self.expr(d, {})
+        is_gen = any(isinstance(n, (ast.Yield, ast.YieldFrom)) for st in fn.body for n in _walk_own(st))
+        if is_gen:
+            # a generator function is run to exhaustion at the call (its items collected): only when its body cannot affect, or be affected by,
+            # what the consumer does between two items -- no stores outside its locals, no calls besides pure built-ins and string formatting
+            for st in fn.body:
+                for n in _walk_own(st):
+                    if isinstance(n, (ast.Attribute, ast.Subscript)) and isinstance(n.ctx, (ast.Store, ast.Del)):
+                        raise Unknown(f"generator {fn.name} writes state between items (line {n.lineno})")
+                    if isinstance(n, (ast.Await, ast.Delete, ast.Global, ast.Nonlocal, ast.YieldFrom)):
+                        raise Unknown(f"generator {fn.name}: {type(n).__name__} at line {n.lineno}")
+                    if isinstance(n, ast.Call):
+                        f_ = n.func
+                        pure = (isinstance(f_, ast.Name) and f_.id in ('str', 'int', 'len', 'range', 'tuple', 'sorted', 'reversed', 'enumerate', 'zip', 'min', 'max')) or \
+                            (isinstance(f_, ast.Attribute) and f_.attr in ('format', 'lower', 'upper', 'join', 'get', 'keys', 'items', 'values'))
+                        if not pure:
+                            raise Unknown(f"generator {fn.name} calls {ast.unparse(f_)[:40]} between items (line {n.lineno})")
+            self._yields = getattr(self, '_yields', [])
+            self._yields.append([])
+            try:
+                try:
+                    self.block(fn.body, env)
+                except ReturnSignal:
+                    pass
+                return AList(self._yields[-1])
+            finally:
+                self._yields.pop()
         try:
             self.block(fn.body, env)
         except ReturnSignal as r:
@@ -542,6 +568,11 @@ class Interp:
             return AList(out)
         if isinstance(e, ast.Await):
             return self.expr(e.value, env)
+        if isinstance(e, ast.Yield):
+            if not getattr(self, '_yields', None):
+                raise Unknown(f"yield outside an interpreted generator at line {e.lineno}")
+            self._yields[-1].append(self.expr(e.value, env) if e.value is not None else None)
+            return None
         return AOpaque(type(e).__name__)
 
     def format(self, val, spec):
@@ -835,6 +866,15 @@ class Interp:
                 if isinstance(args[0], AList) and all(isinstance(x, AInt) and x.v is not None for x in args[0].items):
                     return AList(sorted(args[0].items, key=lambda x: x.v, reverse=rev))
                 raise Unknown(f"sorted() of {type(args[0]).__name__} at line {e.lineno}")
+            if n == 'next' and len(args) in (1, 2) and not kw:
+                seq = self.iterate(args[0], e)
+                if seq:
+                    return seq[0]
+                if len(args) == 2:
+                    return args[1]
+                raise PyError('StopIteration', e.lineno)
+            if n == 'iter' and len(args) == 1:
+                return AList(self.iterate(args[0], e))
             if n == 'enumerate' and len(args) in (1, 2):
                 start = args[1].v if len(args) == 2 and isinstance(args[1], AInt) and args[1].v is not None else (0 if len(args) == 1 else None)
                 if start is None:
@@ -1113,6 +1153,16 @@ class Interp:
                 return self.call_function(fnm, ([] if static else [o]) + args, kw)
             return AOpaque(f".{m}()")
         return AOpaque('call')
+
+def _walk_own(node):
+    """ast.walk that does not enter nested function / class bodies"""
+    stack = [node]
+    while stack:
+        n = stack.pop()
+        yield n
+        for ch in ast.iter_child_nodes(n):
+            if not isinstance(ch, (ast.FunctionDef, ast.AsyncFunctionDef, ast.Lambda, ast.ClassDef)):
+                stack.append(ch)
 
 def class_constants(interp, cdef):
     """class-level NAME = <literal> bindings -> abstract attribute values"""
